@@ -196,6 +196,10 @@ func genC13(t *rapid.T) c13Case {
 	shift := []int{0, 0, 56, 362, 68, 82, 243, 306, -5, 1456}[rapid.IntRange(0, 9).Draw(t, "shift")]
 	for i := range days {
 		days[i] += shift
+		// the same day of the year in another year, next to its neighbour
+		if i > 0 && rapid.IntRange(0, 9).Draw(t, "yearjump") == 0 {
+			days[i] = days[i-1] + []int{365, 730, -365, 366, 1461}[rapid.IntRange(0, 4).Draw(t, "yearjumpn")]
+		}
 		log.Recs[i].Head = vFmtDay(days[i], layout)
 	}
 	return c13Case{Book: book, Log: log, Days: days, Layout: layout, TZ: c06Zones[rapid.IntRange(0, len(c06Zones)-1).Draw(t, "tz")]}
@@ -274,7 +278,7 @@ func checkC14(c c14Case, ctx *vCtx) *vFailure {
 		if len(rec.Notes) > 0 {
 			hasNotes = true
 		}
-		want = append(want, wantDay{vFmtDay(d, c.Layout), rec.Notes, ms})
+		want = append(want, wantDay{rec.Head, rec.Notes, ms}) // the heading text as written (in the chosen format)
 	}
 	feats := c04Features(c.Log)
 	ctx.NonTrivial(c.Layout != "" || hasNotes || hasMerge || len(feats) >= 2)
@@ -362,7 +366,7 @@ func checkC14(c c14Case, ctx *vCtx) *vFailure {
 	return nil
 }
 
-var c14Layouts = []string{"", "", "2006-01-02", "02.01.2006", "02/01/2006", "2 Jan 2006", "20060102"}
+var c14Layouts = []string{"", "", "2006-01-02", "02.01.2006", "02/01/2006", "2 Jan 2006", "20060102", "2006-01-02 15:04"}
 
 func genC14(t *rapid.T) c14Case {
 	layout := c14Layouts[rapid.IntRange(0, len(c14Layouts)-1).Draw(t, "layout")]
@@ -372,6 +376,16 @@ func genC14(t *rapid.T) c14Case {
 	for i := range days {
 		days[i] += shift
 		log.Recs[i].Head = vFmtDay(days[i], layout)
+	}
+	if layout == "2006-01-02 15:04" {
+		// a format with a time of day: several records of one day at different times, next to each other
+		for i := range days {
+			if i > 0 && rapid.Bool().Draw(t, "sameday") {
+				days[i] = days[i-1]
+			}
+			mins := rapid.IntRange(0, 1439).Draw(t, "minutes")
+			log.Recs[i].Head = fmt.Sprintf("%s %02d:%02d", vFmtDay(days[i], "2006-01-02"), mins/60, mins%60)
+		}
 	}
 	// quantities with halves at the third decimal
 	for ri := range log.Recs {
@@ -383,7 +397,7 @@ func genC14(t *rapid.T) c14Case {
 	}
 	c := c14Case{Log: log, Days: days, Layout: layout, ViaEnv: rapid.Bool().Draw(t, "viaenv"), ViaCfg: rapid.IntRange(0, 2).Draw(t, "viacfg") == 0, Begin: c07Absent, End: c07Absent}
 	c.TZ = c06Zones[rapid.IntRange(0, len(c06Zones)-1).Draw(t, "tz")]
-	if rapid.IntRange(0, 3).Draw(t, "period") == 0 {
+	if layout != "2006-01-02 15:04" && rapid.IntRange(0, 3).Draw(t, "period") == 0 {
 		c.Begin = shift + rapid.IntRange(0, 7).Draw(t, "b")
 		if rapid.Bool().Draw(t, "hase") {
 			c.End = shift + rapid.IntRange(0, 7).Draw(t, "e")
@@ -405,6 +419,6 @@ func TestVerifC13Random(t *testing.T) {
 
 func TestVerifC14Random(t *testing.T) {
 	vRapid(t, "C14", "c14.random",
-		"random logs in every layout variant with wild names, notes of both documented forms, duplicates inside a day, quantities with >2 decimals and ties at the third decimal, empty days; date format from {default, 2006-01-02, 02.01.2006, 02/01/2006, '2 Jan 2006', 20060102} given by flag, HR_DATE_FORMAT or the configuration file; optional period; days placed at month/year boundaries and daylight-saving changes under 12 process time zones; oracle: print output read by an own normal-form reader = AST, the tool reads it back (csv log equal up to rounding), print of the printed log is byte-identical; non-trivial = non-default date format or notes or a merged duplicate or >=2 layout features",
+		"random logs in every layout variant with wild names, notes of both documented forms, duplicates inside a day, quantities with >2 decimals and ties at the third decimal, empty days; date format from {default, 2006-01-02, 02.01.2006, 02/01/2006, '2 Jan 2006', 20060102, '2006-01-02 15:04' with several records per day at different times} given by flag, HR_DATE_FORMAT or the configuration file; optional period; days placed at month/year boundaries and daylight-saving changes under 12 process time zones; oracle: print output read by an own normal-form reader = AST, the tool reads it back (csv log equal up to rounding), print of the printed log is byte-identical; non-trivial = non-default date format or notes or a merged duplicate or >=2 layout features",
 		vBudget(4000, 96000), genC14, checkC14)
 }
